@@ -90,6 +90,11 @@ theorem NoSig.whileStep (n : Nat) (c : Expr) (body : Option (List Stmt)) : NoSig
   · exact NoSig.pure _
   · exact NoSig.rtErr _
 
+theorem NoSig.whileTurn (n ln : Nat) (c : Expr) (body : Option (List Stmt)) :
+    NoSig (whileTurn n ln c body : M ν Bool) := by
+  unfold ControlFlow.whileTurn
+  exact NoSig.bind (NoSig.setTopFrame _) fun _ => NoSig.whileStep n c body
+
 /-- one pass of 遍历 likewise -/
 theorem NoSig.iterPass (n nameLen : Nat) (slots : Option String × Option String) (body : Option (List Stmt))
     (key v : Addr) : NoSig (iterPass n nameLen slots body key v : M ν Bool) := by
@@ -128,7 +133,7 @@ theorem NoSig.whileStmt (n ln : Nat) (c : Expr) (body : Option (List Stmt)) :
     NoSig (evalStmt (n+1) (.while ln c body) : M ν Addr) := by
   constructor; intro s e s' h
   rw [evalStmt_while] at h
-  exact (NoSig.bind (NoSig.whileM (NoSig.whileStep n c body) n) fun _ => NoSig.newNull).out _ _ _ h
+  exact (NoSig.bind (NoSig.whileM (NoSig.whileTurn n ln c body) n) fun _ => NoSig.newNull).out _ _ _ h
 
 /-- **nor does a 遍历 statement** -/
 theorem NoSig.iterateStmt (n ln : Nat) (e : Expr) (names : List Ident) (body : Option (List Stmt)) :
